@@ -50,7 +50,7 @@ pub struct PCase {
     pub pages: Vec<PPage>,
 }
 
-fn parse_cols(toks: &[&str]) -> Option<Vec<PCol>> {
+pub fn parse_cols(toks: &[&str]) -> Option<Vec<PCol>> {
     let n: usize = toks.first()?.parse().ok()?;
     if toks.len() != 1 + 2 * n {
         return None;
@@ -98,7 +98,7 @@ pub fn parse_case(line: &str) -> Option<PCase> {
 }
 
 /// the value the server puts into column `i` of global row `g`
-fn cell(ty: &str, g: usize, i: usize) -> Vec<u8> {
+pub fn cell(ty: &str, g: usize, i: usize) -> Vec<u8> {
     let v = (g * 10 + i) as i64;
     match ty {
         "int" => (v as i32).to_be_bytes().to_vec(),
@@ -109,7 +109,7 @@ fn cell(ty: &str, g: usize, i: usize) -> Vec<u8> {
     }
 }
 
-fn expected_value(ty: &str, g: usize, i: usize) -> CqlValue {
+pub fn expected_value(ty: &str, g: usize, i: usize) -> CqlValue {
     let v = (g * 10 + i) as i64;
     match ty {
         "int" => CqlValue::Int(v as i32),
